@@ -94,6 +94,9 @@ func (w *walker) stmt(st *state, s ast.Stmt, label string) *state {
 		w.expr(st, s.Value, false)
 		w.endStmt(st)
 	case *ast.IncDecStmt:
+		if ix, ok := s.X.(*ast.IndexExpr); ok {
+			w.aliasWrite(st, ix.X, "element assignment", ix.Pos())
+		}
 		w.expr(st, s.X, true)
 		w.endStmt(st)
 	case *ast.AssignStmt:
@@ -137,6 +140,12 @@ func (w *walker) stmt(st *state, s ast.Stmt, label string) *state {
 		w.inDefer = false
 		w.endStmt(st)
 	case *ast.ReturnStmt:
+		for _, r := range s.Results {
+			if src := w.sharedSource(st, r); src != "" && isSliceOrMap(info.TypeOf(r)) && w.record && w.u.returnsShared == "" {
+				w.u.returnsShared = src
+				w.an.sharedChanged = true
+			}
+		}
 		w.exprs(st, s.Results, false)
 		w.endStmt(st)
 		return dead()
@@ -224,6 +233,47 @@ func (w *walker) stmt(st *state, s ast.Stmt, label string) *state {
 
 func (w *walker) assign(st *state, s *ast.AssignStmt) {
 	w.noteLoadOrStore(s)
+	// aliases of container values: sources on the right, element writes on the left
+	var srcs []string
+	for i := range s.Lhs {
+		src := ""
+		if len(s.Lhs) == len(s.Rhs) {
+			src = w.sharedSource(st, s.Rhs[i])
+		} else if i == 0 && len(s.Rhs) == 1 {
+			src = w.sharedSource(st, s.Rhs[0]) // v, ok := m.Load(k) / v, ok := x.(T)
+		}
+		srcs = append(srcs, src)
+		if ix, ok := s.Lhs[i].(*ast.IndexExpr); ok {
+			w.aliasWrite(st, ix.X, "element assignment", ix.Pos())
+		}
+	}
+	if len(s.Lhs) == len(s.Rhs) {
+		for i, l := range s.Lhs {
+			// pkgMap[k] = v: from here on the local v and the map share one value
+			if ix, ok := l.(*ast.IndexExpr); ok {
+				if id, ok := unparen(ix.X).(*ast.Ident); ok {
+					if v, ok := info.ObjectOf(id).(*types.Var); ok && v.Parent() == pkg.Scope() && isMap(v.Type()) {
+						if rid, ok := unparen(s.Rhs[i]).(*ast.Ident); ok && isSliceOrMap(info.TypeOf(rid)) && info.ObjectOf(rid) != nil {
+							defer func(o types.Object, n string) { st.shared[o] = "package-level map " + n }(info.ObjectOf(rid), v.Name())
+						}
+					}
+				}
+			}
+		}
+	}
+	defer func() {
+		for i, l := range s.Lhs {
+			if id, ok := l.(*ast.Ident); ok {
+				if o := info.ObjectOf(id); o != nil && o.Parent() != pkg.Scope() {
+					if srcs[i] != "" {
+						st.shared[o] = srcs[i]
+					} else {
+						delete(st.shared, o)
+					}
+				}
+			}
+		}
+	}()
 	w.exprs(st, s.Rhs, false)
 	for i, l := range s.Lhs {
 		if id, ok := l.(*ast.Ident); ok {
